@@ -1,6 +1,971 @@
-//! C13 -- monitor (to be written)
-use crate::fw::ctx;
+//! C13 -- qgraph JSON encoding round-trips diagrams.
+//!
+//! Events: for each generated diagram (neutral description, built in either backend, with
+//! optionally scrambled vertex ids): `json::encode_graph` -> `json::decode_graph` (same
+//! backend and across backends) and `serde_json::to_string(&hash_graph)` -> `from_str`.
+//! Oracle per event: encode is Ok and does not panic; decode is Ok and does not panic;
+//! O5-iso finds an isomorphism original -> decoded that maps inputs/outputs in order and
+//! preserves vertex kind, phase (exactly for denominators <= 256, nearest-fraction
+//! distance otherwise), edge kind and coordinates; the scalar's exact value (raw read-out,
+//! flag bits ignored) is identical when the original is sqrt2^p * e^{i k pi/4} and within
+//! relative 1e-9 otherwise; E(decoded) == E(original) by the independent evaluator
+//! (diagrams without H-boxes and without approximated phases).
+
+use crate::fw::{ctx, guarded, par_cases, Caught};
+use crate::gen::circuit::{gen_circuit, to_quizx, CircParams, PhPool};
+use crate::gen::diagram::*;
+use crate::gen::prng::{hash_bytes, Rng};
+use crate::oracle::eval::EvalError;
+use crate::oracle::iso::{self, IsoGraph, IsoOpts, IsoResult, IsoVert};
+use crate::oracle::ring::{r_of_scalar, scalar_is_approx, scalar_of_r, Num, R};
+use crate::snap::{eval_snap, snap, Tens, FLOAT_TOL};
+use num::{BigInt, One, Rational64, Zero};
+use quizx::graph::{EType, GraphLike, VData, VType, V};
+use quizx::phase::Phase;
+use quizx::scalar::Scalar4;
+use quizx::scalar_traits::{FromPhase, Sqrt2};
+use serde_json::{json, Value};
+
+type VecG = quizx::vec_graph::Graph;
+type HashG = quizx::hash_graph::Graph;
+
+// ------------------------------------------------------------------------------------
+// neutral description (superset of gen::diagram::DDesc: H-boxes, coordinates, any scalar)
+// ------------------------------------------------------------------------------------
+
+#[derive(Clone, Debug)]
+pub struct NV {
+    pub kind: VType,
+    pub ph: (i64, i64),
+    /// row
+    pub x: f64,
+    /// qubit
+    pub y: f64,
+}
+
+#[derive(Clone, Debug)]
+pub struct Neutral {
+    pub verts: Vec<NV>,
+    pub edges: Vec<(usize, usize, EType)>,
+    pub inputs: Vec<usize>,
+    pub outputs: Vec<usize>,
+    pub scalar: Scalar4,
+    /// provenance of the scalar: "one", "desc", "hand-exact", "hand-general", "hand-float", "simplifier:<name>"
+    pub scalar_src: String,
+    pub coord_mode: &'static str,
+}
+
+fn kind_code(t: VType) -> u8 {
+    match t {
+        VType::B => 0,
+        VType::Z => 1,
+        VType::X => 2,
+        VType::H => 3,
+        VType::WInput => 4,
+        VType::WOutput => 5,
+        VType::ZBox => 6,
+    }
+}
+
+fn ekind_code(t: EType) -> u8 {
+    match t {
+        EType::N => 0,
+        EType::H => 1,
+        EType::Wio => 2,
+    }
+}
+
+fn scalar_json(s: &Scalar4) -> Value {
+    let raw = s.verif_raw();
+    let cv = r_of_scalar(s).to_cf();
+    json!({
+        "raw(sign,approx,mantissa,exp)": raw.iter().map(|r| json!([r.0, r.1, r.2.to_string(), r.3])).collect::<Vec<_>>(),
+        "exact": format!("{}", r_of_scalar(s)),
+        "complex": format!("{:e}{:+e}i", cv.re, cv.im),
+    })
+}
+
+impl Neutral {
+    pub fn from_desc(d: &DDesc) -> Neutral {
+        let verts = d
+            .verts
+            .iter()
+            .map(|v| NV {
+                kind: match v.kind {
+                    crate::oracle::eval::VK::B => VType::B,
+                    crate::oracle::eval::VK::Z => VType::Z,
+                    crate::oracle::eval::VK::X => VType::X,
+                },
+                ph: v.ph,
+                x: 0.0,
+                y: 0.0,
+            })
+            .collect();
+        let edges = d
+            .edges
+            .iter()
+            .map(|&(a, b, k)| (a, b, if k == crate::oracle::eval::EK::H { EType::H } else { EType::N }))
+            .collect();
+        let scalar = Scalar4::new(d.scalar.coeffs, d.scalar.pow);
+        let src = if d.scalar.coeffs == [1, 0, 0, 0] && d.scalar.pow == 0 { "one" } else { "desc" };
+        Neutral { verts, edges, inputs: d.inputs.clone(), outputs: d.outputs.clone(), scalar, scalar_src: src.into(), coord_mode: "zero" }
+    }
+
+    /// Snapshot of a quizx graph through the public interface (vertices in id order).
+    pub fn of_graph(g: &impl GraphLike, scalar_src: &str) -> Neutral {
+        let mut vs: Vec<V> = g.vertices().collect();
+        vs.sort();
+        let pos = |v: V| vs.binary_search(&v).expect("edge/anchor refers to a vertex that is not in vertices()");
+        let verts = vs
+            .iter()
+            .map(|&v| {
+                let r = g.phase(v).to_rational();
+                NV { kind: g.vertex_type(v), ph: (*r.numer(), *r.denom()), x: g.row(v), y: g.qubit(v) }
+            })
+            .collect();
+        let mut edges: Vec<(usize, usize, EType)> = g.edges().map(|(s, t, k)| (pos(s), pos(t), k)).collect();
+        edges.sort_by_key(|e| (e.0, e.1));
+        Neutral {
+            verts,
+            edges,
+            inputs: g.inputs().iter().map(|&v| pos(v)).collect(),
+            outputs: g.outputs().iter().map(|&v| pos(v)).collect(),
+            scalar: *g.scalar(),
+            scalar_src: scalar_src.to_string(),
+            coord_mode: "as-is",
+        }
+    }
+
+    pub fn build<G: GraphLike>(&self, scramble: Option<u64>) -> G {
+        let mut g = G::new();
+        let mut ids = Vec::with_capacity(self.verts.len());
+        let mut rng = scramble.map(Rng::new);
+        let mut dummies: Vec<V> = vec![];
+        for nv in &self.verts {
+            if let Some(r) = rng.as_mut() {
+                while r.chance(0.3) {
+                    dummies.push(g.add_vertex(VType::Z));
+                }
+                if !dummies.is_empty() && r.chance(0.4) {
+                    let i = r.below(dummies.len());
+                    let d = dummies.swap_remove(i);
+                    g.remove_vertex(d);
+                }
+            }
+            let v = g.add_vertex_with_data(VData {
+                ty: nv.kind,
+                phase: Phase::new(Rational64::new(nv.ph.0, nv.ph.1)),
+                qubit: nv.y,
+                row: nv.x,
+                ..Default::default()
+            });
+            ids.push(v);
+        }
+        for d in dummies {
+            g.remove_vertex(d);
+        }
+        for &(a, b, k) in &self.edges {
+            g.add_edge_with_type(ids[a], ids[b], k);
+        }
+        g.set_inputs(self.inputs.iter().map(|&i| ids[i]).collect());
+        g.set_outputs(self.outputs.iter().map(|&i| ids[i]).collect());
+        *g.scalar_mut() = self.scalar;
+        g
+    }
+
+    pub fn to_iso(&self) -> IsoGraph {
+        IsoGraph {
+            verts: self.verts.iter().map(|v| IsoVert { kind: kind_code(v.kind), ph: v.ph, x: v.x, y: v.y }).collect(),
+            edges: self.edges.iter().map(|&(a, b, k)| (a, b, ekind_code(k))).collect(),
+            inputs: self.inputs.clone(),
+            outputs: self.outputs.clone(),
+        }
+    }
+
+    pub fn to_json(&self) -> Value {
+        json!({
+            "verts(index,kind,phase,row,qubit)": self.verts.iter().enumerate().map(|(i, v)| json!([i, format!("{:?}", v.kind), format!("{}/{}", v.ph.0, v.ph.1), v.x, v.y])).collect::<Vec<_>>(),
+            "edges": self.edges.iter().map(|e| json!([e.0, e.1, format!("{:?}", e.2)])).collect::<Vec<_>>(),
+            "inputs": self.inputs,
+            "outputs": self.outputs,
+            "scalar": scalar_json(&self.scalar),
+            "scalar_src": self.scalar_src,
+            "coord_mode": self.coord_mode,
+        })
+    }
+
+    pub fn hash(&self) -> u64 {
+        hash_bytes(format!("{:?}", (&self.verts, &self.edges, &self.inputs, &self.outputs, self.scalar.verif_raw())).as_bytes())
+    }
+
+    fn has_hbox(&self) -> bool {
+        self.verts.iter().any(|v| !matches!(v.kind, VType::B | VType::Z | VType::X))
+    }
+    fn max_den(&self) -> i64 {
+        self.verts.iter().map(|v| v.ph.1).max().unwrap_or(1)
+    }
+    fn num_h_edges(&self) -> usize {
+        self.edges.iter().filter(|e| e.2 == EType::H).count()
+    }
+    fn num_inner(&self) -> usize {
+        self.verts.iter().filter(|v| v.kind != VType::B).count()
+    }
+}
+
+// ------------------------------------------------------------------------------------
+// scalar classification (independent of quizx: works on the exact raw value)
+// ------------------------------------------------------------------------------------
+
+/// r == sqrt2^p * omega^k ?
+pub fn exact_form(r: &R) -> Option<(i64, i64)> {
+    if Num::is_zero(r) {
+        return None;
+    }
+    let ns = r.norm_sqr();
+    if ns.c[0] != BigInt::one() || !ns.c[1].is_zero() || !ns.c[2].is_zero() || !ns.c[3].is_zero() {
+        return None;
+    }
+    let p = ns.e;
+    let base = R::sqrt2_pow(p);
+    (0..8).find(|&k| base.mul(&R::omega_pow(k)) == *r).map(|k| (p, k))
+}
+
+/// Is arg(z)/pi within 1e-12 of a fraction with denominator <= 256?
+fn angle_class(r: &R) -> &'static str {
+    let c = r.to_cf();
+    let th = c.im.atan2(c.re) / std::f64::consts::PI;
+    let mut best = f64::INFINITY;
+    for d in 1..=256i64 {
+        let k = (th * d as f64).round();
+        best = best.min((th - k / d as f64).abs());
+    }
+    if best <= 1e-12 {
+        "angle-den<=256"
+    } else {
+        "angle-den>256"
+    }
+}
+
+/// Does converting this scalar to a complex float involve a dyadic number with 64
+/// significant bits (a stored coefficient, or the intermediate c1 - c3 / c1 + c3)? Such
+/// numbers are mis-converted by `Dyadic::val_and_exp` (finding recorded under C07); the
+/// encoder's polar form inherits the wrong value.
+fn has_64bit_mantissa(s: &Scalar4) -> bool {
+    let raw = s.verif_raw();
+    let big = |i: usize| -> (BigInt, i64) {
+        let (sign, _, m, e) = raw[i];
+        let v = BigInt::from(m);
+        (if sign { -v } else { v }, e as i64)
+    };
+    let sig_bits = |x: &BigInt| -> u64 {
+        if x.is_zero() {
+            0
+        } else {
+            x.bits() - x.trailing_zeros().unwrap_or(0)
+        }
+    };
+    if (0..4).any(|i| sig_bits(&big(i).0) >= 64) {
+        return true;
+    }
+    let (b, eb) = big(1);
+    let (d, ed) = big(3);
+    if b.is_zero() || d.is_zero() {
+        return false;
+    }
+    let e = eb.min(ed);
+    let (b, d) = (b << ((eb - e) as usize), d << ((ed - e) as usize));
+    sig_bits(&(&b - &d)) >= 64 || sig_bits(&(&b + &d)) >= 64
+}
+
+#[derive(Clone, Debug, PartialEq)]
+enum ScalarClass {
+    One,
+    Zero,
+    ExactForm(i64, i64),
+    Other(&'static str),
+}
+
+fn classify_scalar(s: &Scalar4) -> ScalarClass {
+    let r = r_of_scalar(s);
+    if Num::is_zero(&r) {
+        ScalarClass::Zero
+    } else if r == R::one() {
+        ScalarClass::One
+    } else if let Some((p, k)) = exact_form(&r) {
+        ScalarClass::ExactForm(p, k)
+    } else {
+        ScalarClass::Other(angle_class(&r))
+    }
+}
+
+pub const SCALAR_REL_TOL: f64 = 1e-9;
+
+/// Ok(()) or Err((failure class, discriminating condition, relative error))
+fn check_scalar(orig: &Scalar4, dec: &Scalar4) -> Result<(), (String, String, f64)> {
+    let ro = r_of_scalar(orig);
+    let rd = r_of_scalar(dec);
+    match classify_scalar(orig) {
+        ScalarClass::One | ScalarClass::ExactForm(..) => {
+            if ro == rd {
+                Ok(())
+            } else {
+                let rel = rd.sub(&ro).to_cf().norm() / ro.to_cf().norm();
+                Err(("scalar-not-exact".into(), "sqrt2^p*omega^k".into(), rel))
+            }
+        }
+        ScalarClass::Zero => {
+            if Num::is_zero(&rd) {
+                Ok(())
+            } else {
+                Err(("scalar-not-preserved".into(), "zero".into(), f64::INFINITY))
+            }
+        }
+        ScalarClass::Other(angle) => {
+            let no = ro.to_cf().norm();
+            let diff = rd.sub(&ro).to_cf().norm();
+            let rel = diff / no;
+            if rel.is_finite() && rel <= SCALAR_REL_TOL {
+                Ok(())
+            } else if !no.is_finite() || no == 0.0 {
+                // magnitude outside the f64 range: the oracle cannot judge
+                Err(("oracle-range".into(), String::new(), rel))
+            } else {
+                // the angle clause alone explains a failure, so it takes priority
+                let cond = if angle == "angle-den>256" {
+                    angle.to_string()
+                } else if has_64bit_mantissa(orig) {
+                    "dyadic-64bit-mantissa".to_string()
+                } else {
+                    angle.to_string()
+                };
+                Err(("scalar-not-preserved".into(), cond, rel))
+            }
+        }
+    }
+}
+
+// ------------------------------------------------------------------------------------
+// the check
+// ------------------------------------------------------------------------------------
+
+fn trunc(s: &str) -> String {
+    if s.len() > 6000 {
+        format!("{}...[{} bytes]", &s[..6000], s.len())
+    } else {
+        s.to_string()
+    }
+}
+
+struct Orig<'a> {
+    family: &'static str,
+    index: u64,
+    n: &'a Neutral,
+    iso: IsoGraph,
+    /// E(original) when evaluable
+    tens: Option<Tens>,
+    scalar_from_rewriting: bool,
+}
+
+fn judge<G: GraphLike>(o: &Orig, site: &str, path: &str, text: &str, g2: &G) {
+    let c = ctx();
+    let opts = IsoOpts::default();
+    let dec = match guarded(|| Neutral::of_graph(g2, "decoded")) {
+        Ok(d) => d,
+        Err(e) => {
+            c.violation(
+                &format!("{site}|decoded-graph-inconsistent|{}", e.site()),
+                o.family,
+                o.index,
+                json!({"path": path, "original": o.n.to_json(), "json": trunc(text), "error": e.text()}),
+            );
+            return;
+        }
+    };
+    let detail = |what: &str, extra: Value| {
+        json!({"what": what, "path": path, "original": o.n.to_json(), "json": trunc(text), "decoded": dec.to_json(), "extra": extra})
+    };
+    let mut structure_ok = true;
+    match iso::find_iso(&o.iso, &dec.to_iso(), &opts) {
+        IsoResult::Iso(_) => c.count("iso:found", 1),
+        IsoResult::Budget => {
+            structure_ok = false;
+            c.inconclusive("iso-budget", json!({"family": o.family, "index": o.index, "path": path}));
+        }
+        IsoResult::NotIso(reason) => {
+            structure_ok = false;
+            let class = iso::classify(&o.iso, &dec.to_iso(), &opts);
+            c.violation(
+                &format!("{site}|not-isomorphic|{class}"),
+                o.family,
+                o.index,
+                detail("no anchored label-preserving isomorphism original -> decoded", json!({"first_reason": reason, "failing_clause": class})),
+            );
+        }
+    }
+    let mut scalar_ok = true;
+    match check_scalar(&o.n.scalar, dec_scalar(g2)) {
+        Ok(()) => c.count("scalar:preserved", 1),
+        Err((class, cond, rel)) if class == "oracle-range" => {
+            scalar_ok = false;
+            c.inconclusive("scalar-magnitude-outside-f64", json!({"family": o.family, "index": o.index, "path": path, "rel": rel, "cond": cond}));
+        }
+        Err((class, cond, rel)) => {
+            scalar_ok = false;
+            let src = if o.scalar_from_rewriting { "from-clifford+t-rewriting" } else { "hand-made" };
+            c.violation(
+                &format!("{site}|{class}|{cond}|{src}"),
+                o.family,
+                o.index,
+                detail(
+                    "scalar value changed",
+                    json!({"expected": scalar_json(&o.n.scalar), "observed": scalar_json(dec_scalar(g2)), "relative_error": rel, "tolerance": if class == "scalar-not-exact" { 0.0 } else { SCALAR_REL_TOL }}),
+                ),
+            );
+        }
+    }
+    // consequence clause: same linear map
+    if let Some(before) = &o.tens {
+        match snap(g2) {
+            Err(e) => {
+                if structure_ok {
+                    c.violation(&format!("{site}|decoded-not-evaluable"), o.family, o.index, detail("decoded diagram has unsupported kinds", json!(e)));
+                }
+            }
+            Ok(mut s2) => {
+                // flag bits are not part of the contract: an equal value is evaluated in the same mode
+                if s2.scalar == r_of_scalar(&o.n.scalar) {
+                    s2.scalar_approx = scalar_is_approx(&o.n.scalar);
+                }
+                match eval_snap(&s2) {
+                    Ok(after) => {
+                        c.count(if before.is_exact() && after.is_exact() { "map:compared-exact" } else { "map:compared-float" }, 1);
+                        if after.len() != before.len() || !after.same(before, FLOAT_TOL) {
+                            if structure_ok && scalar_ok {
+                                c.violation(
+                                    &format!("{site}|map-changed|iso-and-scalar-ok"),
+                                    o.family,
+                                    o.index,
+                                    detail("linear map changed although structure and scalar were judged equal", json!({"before": before.brief(), "after": after.brief()})),
+                                );
+                            } else {
+                                c.count("map:changed-as-consequence", 1);
+                            }
+                        }
+                    }
+                    Err(EvalError::IllFormed(m)) => {
+                        if structure_ok {
+                            c.violation(&format!("{site}|decoded-ill-formed"), o.family, o.index, detail("decoded diagram ill-formed", json!(m)));
+                        }
+                    }
+                    Err(EvalError::TooWide(_)) => c.count("map:too-wide", 1),
+                }
+            }
+        }
+    }
+}
+
+fn dec_scalar<G: GraphLike>(g: &G) -> &Scalar4 {
+    g.scalar()
+}
+
+fn report_caught(o: &Orig, site: &str, stage: &str, path: &str, text: Option<&str>, e: Caught) {
+    let c = ctx();
+    match e {
+        Caught::Oracle(m) => c.inconclusive("oracle-error", json!({"msg": m})),
+        e => c.violation(
+            &format!("{site}|{stage}-panic|{}", e.site()),
+            o.family,
+            o.index,
+            json!({"what": format!("{stage} panicked"), "path": path, "original": o.n.to_json(), "json": text.map(trunc), "panic": e.text()}),
+        ),
+    }
+}
+
+/// encode from backend A, decode into backends listed.
+fn roundtrip_from<A: GraphLike>(o: &Orig, from: &str, scramble: Option<u64>, to_vec: bool, to_hash: bool) {
+    let c = ctx();
+    let site = "qgraph";
+    let g: A = o.n.build(scramble);
+    let enc = guarded(|| quizx::json::encode_graph(&g));
+    let text = match enc {
+        Err(e) => {
+            report_caught(o, site, "encode", from, None, e);
+            return;
+        }
+        Ok(Err(e)) => {
+            c.violation(
+                &format!("{site}|encode-err"),
+                o.family,
+                o.index,
+                json!({"what": "encode_graph returned Err on a well-formed diagram", "path": from, "original": o.n.to_json(), "error": format!("{e}")}),
+            );
+            return;
+        }
+        Ok(Ok(t)) => t,
+    };
+    c.count(&format!("encode:{from}"), 1);
+    c.maximum("max_json_bytes", text.len() as u64);
+    if to_vec {
+        let path = format!("{from}->vec");
+        match guarded(|| quizx::json::decode_graph::<VecG>(&text)) {
+            Err(e) => report_caught(o, site, "decode", &path, Some(&text), e),
+            Ok(Err(e)) => c.violation(
+                &format!("{site}|decode-err"),
+                o.family,
+                o.index,
+                json!({"what": "decode_graph returned Err on encoder output", "path": path, "original": o.n.to_json(), "json": trunc(&text), "error": format!("{e}")}),
+            ),
+            Ok(Ok(g2)) => {
+                c.count(&format!("path:{path}"), 1);
+                judge(o, site, &path, &text, &g2);
+            }
+        }
+    }
+    if to_hash {
+        let path = format!("{from}->hash");
+        match guarded(|| quizx::json::decode_graph::<HashG>(&text)) {
+            Err(e) => report_caught(o, site, "decode", &path, Some(&text), e),
+            Ok(Err(e)) => c.violation(
+                &format!("{site}|decode-err"),
+                o.family,
+                o.index,
+                json!({"what": "decode_graph returned Err on encoder output", "path": path, "original": o.n.to_json(), "json": trunc(&text), "error": format!("{e}")}),
+            ),
+            Ok(Ok(g2)) => {
+                c.count(&format!("path:{path}"), 1);
+                judge(o, site, &path, &text, &g2);
+            }
+        }
+    }
+}
+
+fn roundtrip_serde(o: &Orig, scramble: Option<u64>) {
+    let c = ctx();
+    let site = "serde(hash_graph)";
+    let g: HashG = o.n.build(scramble);
+    let text = match guarded(|| serde_json::to_string(&g)) {
+        Err(e) => {
+            report_caught(o, site, "serialize", "serde", None, e);
+            return;
+        }
+        Ok(Err(e)) => {
+            c.violation(
+                &format!("{site}|serialize-err"),
+                o.family,
+                o.index,
+                json!({"what": "serde_json::to_string(&hash_graph) returned Err", "original": o.n.to_json(), "error": format!("{e}")}),
+            );
+            return;
+        }
+        Ok(Ok(t)) => t,
+    };
+    match guarded(|| serde_json::from_str::<HashG>(&text)) {
+        Err(e) => report_caught(o, site, "deserialize", "serde", Some(&text), e),
+        Ok(Err(e)) => c.violation(
+            &format!("{site}|deserialize-err"),
+            o.family,
+            o.index,
+            json!({"what": "serde_json::from_str::<hash_graph::Graph> returned Err on serializer output", "original": o.n.to_json(), "json": trunc(&text), "error": format!("{e}")}),
+        ),
+        Ok(Ok(g2)) => {
+            c.count("path:hash-serde", 1);
+            judge(o, site, "hash-serde", &text, &g2);
+        }
+    }
+}
+
+pub fn check_neutral(family: &'static str, index: u64, r: &mut Rng, n: &Neutral) {
+    let c = ctx();
+    // harness-side sanity: the plain build must snapshot back to the description
+    let g0: VecG = n.build(None);
+    let back = Neutral::of_graph(&g0, "");
+    if !matches!(iso::find_iso(&n.to_iso(), &back.to_iso(), &IsoOpts { coord_tol: 0.0, ..Default::default() }), IsoResult::Iso(_)) && n.max_den() <= 256 {
+        c.harness_error(&format!("{family}#{index}: building the description does not reproduce it"));
+        return;
+    }
+    let evaluable = !n.has_hbox() && n.max_den() <= 256;
+    let tens = if evaluable {
+        match snap(&g0).map_err(EvalError::IllFormed).and_then(|s| eval_snap(&s)) {
+            Ok(t) => Some(t),
+            Err(EvalError::TooWide(_)) => {
+                c.count("map:too-wide", 1);
+                None
+            }
+            Err(EvalError::IllFormed(m)) => {
+                c.harness_error(&format!("{family}#{index}: generator produced an ill-formed diagram: {m}"));
+                return;
+            }
+        }
+    } else {
+        c.count(if n.has_hbox() { "map:skipped-hbox" } else { "map:skipped-approximated-phase" }, 1);
+        None
+    };
+    let from_rewriting = n.scalar_src.starts_with("simplifier") || n.scalar_src == "one" || n.scalar_src == "hand-exact";
+    let o = Orig { family, index, n, iso: n.to_iso(), tens, scalar_from_rewriting: from_rewriting };
+    let scr = if r.chance(0.5) { Some(r.next_u64()) } else { None };
+    roundtrip_from::<VecG>(&o, "vec", scr, true, true);
+    roundtrip_from::<HashG>(&o, "hash", scr, true, true);
+    roundtrip_serde(&o, scr);
+    // evidence
+    let cls = classify_scalar(&n.scalar);
+    c.count(
+        &format!(
+            "scalar-class:{}",
+            match &cls {
+                ScalarClass::One => "one".to_string(),
+                ScalarClass::Zero => "zero".to_string(),
+                ScalarClass::ExactForm(..) => "sqrt2^p*omega^k".to_string(),
+                ScalarClass::Other(a) => format!("other({a})"),
+            }
+        ),
+        1,
+    );
+    if scalar_is_approx(&n.scalar) {
+        c.count("scalar-flag:approx", 1);
+    }
+    c.count(&format!("scalar-src:{}", n.scalar_src.split(':').next().unwrap_or("")), 1);
+    c.count(&format!("coords:{}", n.coord_mode), 1);
+    c.count("h-edges", n.num_h_edges() as u64);
+    c.count("h-box-vertices", n.verts.iter().filter(|v| v.kind == VType::H).count() as u64);
+    c.count("phases:den<=4", n.verts.iter().filter(|v| v.kind != VType::B && v.ph.1 <= 4).count() as u64);
+    c.count("phases:4<den<=256", n.verts.iter().filter(|v| v.ph.1 > 4 && v.ph.1 <= 256).count() as u64);
+    c.count("phases:den>256", n.verts.iter().filter(|v| v.ph.1 > 256).count() as u64);
+    c.maximum("max_vertices", n.verts.len() as u64);
+    c.maximum("max_boundaries", (n.inputs.len() + n.outputs.len()) as u64);
+    let nontrivial = n.num_inner() >= 2 && !n.edges.is_empty();
+    c.case(family, if nontrivial { Some(n.hash()) } else { None });
+    c.evals(4); // five round-trip paths per diagram
+    c.sample_n(6, || json!({"family": family, "index": index, "diagram": n.to_json()}));
+}
+
+// ------------------------------------------------------------------------------------
+// generators
+// ------------------------------------------------------------------------------------
+
+const SMALL_DENS: [i64; 14] = [3, 5, 6, 7, 8, 12, 16, 32, 64, 100, 128, 255, 256, 9];
+const LARGE_DENS: [i64; 9] = [257, 258, 511, 512, 1000, 1024, 4099, 65536, 1_000_003];
+
+fn norm_phase(n: i64, d: i64) -> (i64, i64) {
+    let p = Phase::new(Rational64::new(n, d)).to_rational();
+    (*p.numer(), *p.denom())
+}
+
+fn rand_phase(r: &mut Rng, dens: &[i64]) -> (i64, i64) {
+    let d = *r.pick(dens);
+    // biased to the ends of (-1, 1]
+    let k = match r.below(6) {
+        0 => d - 1,
+        1 => -(d - 1),
+        2 => 1,
+        _ => r.range(-d + 1, d),
+    };
+    norm_phase(k, d)
+}
+
+fn set_coords(r: &mut Rng, n: &mut Neutral) {
+    let mode = r.below(6);
+    n.coord_mode = ["zero", "unique-grid", "dyadic-with-duplicates", "random-floats", "extreme", "decimal"][mode];
+    for (i, v) in n.verts.iter_mut().enumerate() {
+        let (x, y) = match mode {
+            0 => (0.0, 0.0),
+            1 => (1.0 + i as f64, (i % 4) as f64),
+            2 => (r.range(-8, 8) as f64 / 8.0, r.range(0, 3) as f64 / 2.0),
+            3 => (r.f64() * 200.0 - 100.0, r.f64() * 20.0 - 10.0),
+            4 => {
+                let pool = [1e15 + 0.5, -1e-7, -0.0, 123456.789, 1e-300, -3.5e10, 0.1 + 0.2, 2f64.powi(52) + 1.0];
+                (*r.pick(&pool), *r.pick(&pool) + i as f64)
+            }
+            _ => (r.range(-500, 500) as f64 / 100.0, r.range(0, 30) as f64 / 10.0),
+        };
+        v.x = x;
+        v.y = y;
+    }
+}
+
+/// Insert H-box vertices structurally: subdivide edges and attach new boxes.
+fn add_hboxes(r: &mut Rng, n: &mut Neutral) {
+    let ops = 1 + r.below(3);
+    for _ in 0..ops {
+        let ph = if r.chance(0.6) { (1, 1) } else { *r.pick(&[(0i64, 1i64), (1, 2), (1, 4), (-3, 4), (1, 3)]) };
+        let spiders: Vec<usize> = (0..n.verts.len()).filter(|&i| n.verts[i].kind != VType::B).collect();
+        if !n.edges.is_empty() && r.chance(0.5) {
+            let ei = r.below(n.edges.len());
+            let (a, b, _k) = n.edges.swap_remove(ei);
+            let h = n.verts.len();
+            n.verts.push(NV { kind: VType::H, ph, x: 0.0, y: 0.0 });
+            n.edges.push((a, h, EType::N));
+            n.edges.push((b, h, if r.chance(0.3) { EType::H } else { EType::N }));
+        } else if !spiders.is_empty() {
+            let h = n.verts.len();
+            n.verts.push(NV { kind: VType::H, ph, x: 0.0, y: 0.0 });
+            let ar = 1 + r.below(3.min(spiders.len()));
+            let mut ss = spiders.clone();
+            r.shuffle(&mut ss);
+            for &s in ss.iter().take(ar) {
+                n.edges.push((s, h, if r.chance(0.3) { EType::H } else { EType::N }));
+            }
+        }
+    }
+}
+
+fn hand_scalar(r: &mut Rng) -> (Scalar4, &'static str) {
+    match r.below(8) {
+        0 => {
+            // sqrt2^p * omega^k through the public constructors
+            let p = r.range(-60, 60) as i32;
+            let k = r.range(0, 7);
+            (Scalar4::sqrt2_pow(p) * Scalar4::from_phase(Rational64::new(k, 4)), "hand-exact")
+        }
+        1 => {
+            // the same class through explicit coefficients
+            let p = r.range(-60, 60);
+            let k = r.range(0, 7);
+            let v = R::sqrt2_pow(p).mul(&R::omega_pow(k));
+            (scalar_of_r(&v).expect("small"), "hand-exact")
+        }
+        2 => {
+            let mut c = [0i64; 4];
+            for x in c.iter_mut() {
+                *x = r.range(-9, 9);
+            }
+            (Scalar4::new(c, r.range(-12, 12) as i32), "hand-general")
+        }
+        3 => {
+            let mut c = [0i64; 4];
+            for x in c.iter_mut() {
+                *x = r.range(-1_000_000_007, 1_000_000_007);
+            }
+            (Scalar4::new(c, r.range(-40, 40) as i32), "hand-general")
+        }
+        4 => {
+            // products of (1 + e^{i pi k/4}): what Clifford+T rewriting produces
+            let mut s = Scalar4::sqrt2_pow(r.range(-6, 6) as i32) * Scalar4::from_phase(Rational64::new(r.range(0, 7), 4));
+            for _ in 0..(1 + r.below(4)) {
+                s *= Scalar4::one_plus_phase(Rational64::new(*r.pick(&[1i64, 3, 5, 7, 2, 6]), 4));
+            }
+            (s, "hand-general")
+        }
+        5 => (Scalar4::complex(r.f64() * 4.0 - 2.0, r.f64() * 4.0 - 2.0), "hand-float"),
+        6 => {
+            // products of float factors (non-Clifford+T phases)
+            let mut s = Scalar4::from_phase(rand_phase_rat(r));
+            for _ in 0..(1 + r.below(4)) {
+                s *= Scalar4::one_plus_phase(rand_phase_rat(r));
+            }
+            (s, "hand-float")
+        }
+        _ => match r.below(4) {
+            0 => (Scalar4::zero(), "hand-general"),
+            1 => (Scalar4::real(r.f64() * 10.0 - 5.0), "hand-float"),
+            2 => (Scalar4::real(1.0), "hand-float"),
+            _ => (Scalar4::new([0, 0, 0, 0], 0) + Scalar4::new([2, 0, 0, 0], -1), "hand-exact"),
+        },
+    }
+}
+
+fn rand_phase_rat(r: &mut Rng) -> Rational64 {
+    let (n, d) = rand_phase(r, &[3, 5, 7, 8, 16, 12]);
+    Rational64::new(n, d)
+}
+
+fn base_desc(r: &mut Rng, max_spiders: usize) -> DDesc {
+    let pool = *r.pick(&[PhasePool::Exact, PhasePool::CliffordHeavy, PhasePool::Float, PhasePool::Exact]);
+    if r.chance(0.2) {
+        gen_gadget_rich(r, 5, pool, 0.0)
+    } else {
+        let graph_like = r.chance(0.2);
+        gen_random(r, &DiagParams { max_spiders, max_bnd: 5, pool, graph_like, bare_wires: true, var_prob: 0.0 })
+    }
+}
+
+fn gen_arbitrary(r: &mut Rng, max_spiders: usize, large: bool) -> Neutral {
+    let d = base_desc(r, max_spiders);
+    let mut n = Neutral::from_desc(&d);
+    // phases: small denominators exactly representable, optionally large ones
+    let p_small = *r.pick(&[0.0, 0.3, 0.8]);
+    for v in n.verts.iter_mut() {
+        if v.kind == VType::B {
+            continue;
+        }
+        if large && r.chance(0.5) {
+            v.ph = rand_phase(r, &LARGE_DENS);
+        } else if r.chance(p_small) {
+            v.ph = rand_phase(r, &SMALL_DENS);
+        }
+    }
+    if r.chance(0.3) {
+        add_hboxes(r, &mut n);
+    }
+    set_coords(r, &mut n);
+    if r.chance(0.4) {
+        let (s, src) = hand_scalar(r);
+        n.scalar = s;
+        n.scalar_src = src.into();
+    }
+    n
+}
+
+const SIMPS: [&str; 8] = ["clifford_simp", "full_simp", "interior_clifford_simp", "spider_simp", "flow_simp", "pivot_simp", "local_comp_simp", "fuse_gadgets"];
+
+fn apply_simp(name: &str, g: &mut VecG) {
+    use quizx::simplify as s;
+    match name {
+        "clifford_simp" => {
+            s::clifford_simp(g);
+        }
+        "full_simp" => {
+            s::full_simp(g);
+        }
+        "interior_clifford_simp" => {
+            s::interior_clifford_simp(g);
+        }
+        "spider_simp" => {
+            s::spider_simp(g);
+        }
+        "flow_simp" => {
+            s::flow_simp(g);
+        }
+        "pivot_simp" => {
+            s::pivot_simp(g);
+        }
+        "local_comp_simp" => {
+            s::local_comp_simp(g);
+        }
+        _ => {
+            s::fuse_gadgets(g);
+        }
+    }
+}
+
+/// A diagram as left by a quizx simplifier on a Clifford+T input (quizx is only an input
+/// generator here). None when the simplifier panicked / ran out of budget.
+fn gen_simplified(r: &mut Rng, max_spiders: usize) -> Option<Neutral> {
+    let name = *r.pick(&SIMPS);
+    let mut g: VecG = if r.chance(0.5) {
+        let pool = if r.chance(0.5) { PhasePool::Exact } else { PhasePool::CliffordHeavy };
+        let d = if r.chance(0.3) {
+            gen_gadget_rich(r, 5, pool, 0.0)
+        } else {
+            let graph_like = r.chance(0.5);
+            gen_random(r, &DiagParams { max_spiders, max_bnd: 4, pool, graph_like, bare_wires: true, var_prob: 0.0 })
+        };
+        let mut n = Neutral::from_desc(&d);
+        n.scalar = Scalar4::one();
+        set_coords(r, &mut n);
+        n.build(None)
+    } else {
+        let mut p = CircParams::unitary(4, 25, PhPool::Exact);
+        p.swap = false;
+        p.ancilla = r.chance(0.3);
+        let circ = gen_circuit(r, &p);
+        let qc = to_quizx(&circ);
+        let mut g: VecG = guarded(|| qc.to_graph()).ok()?;
+        let nq = g.inputs().len();
+        match r.below(4) {
+            0 => {
+                let no = g.outputs().len();
+                guarded(|| {
+                    g.plug_inputs(&vec![quizx::graph::BasisElem::Z0; nq]);
+                    g.plug_outputs(&vec![quizx::graph::BasisElem::Z0; no]);
+                })
+                .ok()?;
+            }
+            1 => {
+                guarded(|| g.plug_inputs(&vec![quizx::graph::BasisElem::X0; nq])).ok()?;
+            }
+            _ => {}
+        }
+        g
+    };
+    let budget = 10_000 + 50 * ((g.num_vertices() + g.num_edges()) as u64).pow(2);
+    quizx::verif::take_ticks();
+    quizx::verif::set_budget(budget);
+    let res = guarded(|| apply_simp(name, &mut g));
+    quizx::verif::set_budget(u64::MAX);
+    quizx::verif::take_ticks();
+    res.ok()?;
+    // the result must still be a well-formed diagram to be a legal input here
+    let s = snap(&g).ok()?;
+    s.diag.check_well_formed().ok()?;
+    let mut n = guarded(|| Neutral::of_graph(&g, &format!("simplifier:{name}"))).ok()?;
+    n.coord_mode = "as-left-by-quizx";
+    Some(n)
+}
 
 pub fn run() {
-    ctx().harness_error("C13 monitor not implemented yet");
+    let c = ctx();
+    let t = c.tier;
+    if let Err(e) = iso::self_test() {
+        c.harness_error(&format!("iso oracle self-test failed: {e}"));
+        return;
+    }
+    // self-test of the scalar classifier
+    for p in -5..=5i64 {
+        for k in 0..8 {
+            if exact_form(&R::sqrt2_pow(p).mul(&R::omega_pow(k))) != Some((p, k)) {
+                c.harness_error("exact_form self-test failed");
+                return;
+            }
+        }
+    }
+    if exact_form(&R::from_i64s([1, 1, 0, 0], 0)).is_some() || exact_form(&R::from_i64s([3, 0, 0, 0], 0)).is_some() || exact_form(&R::from_i64s([0, 1, 0, 2], 0)).is_some() {
+        c.harness_error("exact_form self-test failed (negative)");
+        return;
+    }
+    c.set_rule(
+        "cases = generated diagrams, each pushed through 5 round-trip paths (vec->vec, vec->hash, hash->hash, hash->vec via encode_graph/decode_graph, and serde on the hash backend; evaluations counts paths); a diagram is non-trivial when it has >= 2 non-boundary vertices and >= 1 edge; distinct = distinct (vertices, edges, anchors, raw scalar) by 64-bit hash",
+    );
+    c.assume("O5-iso (harness/src/oracle/iso.rs) is correct (self-tested at start; every witness is re-verified)");
+    c.assume("exact scalar read-out through Scalar4::verif_raw; flag bits (approx) are not part of the contract");
+    c.assume("phases with denominator > 256 must decode to within 1/512 (+1e-12) of the original on the circle; nothing more is demanded of them");
+    c.assume("coordinates are finite f64; tolerance |d| <= 1e-9 * max(1,|x|)");
+    c.assume("scalars tagged hand-made (arbitrary Z[omega][1/2] elements, float scalars) go beyond 'scalars arising from Clifford+T rewriting'; their violations carry the tag in the signature");
+    c.assume("well-formed diagram: every boundary has degree 1 and is an input or an output exactly once; no variables on vertices (the format does not carry them)");
+
+    let (ms, n_arb, n_large, n_simp) = t.pick((9usize, 900usize, 300usize, 700usize), (14usize, 80_000usize, 20_000usize, 60_000usize));
+    par_cases("arbitrary", n_arb, move |r, i| {
+        let n = gen_arbitrary(r, ms, false);
+        check_neutral("arbitrary", i, r, &n);
+    });
+    par_cases("large-denominators", n_large, move |r, i| {
+        let n = gen_arbitrary(r, ms, true);
+        check_neutral("large-denominators", i, r, &n);
+    });
+    par_cases("simplified-clifford-t", n_simp, move |r, i| match gen_simplified(r, ms + 3) {
+        Some(n) => check_neutral("simplified-clifford-t", i, r, &n),
+        None => ctx().skipped(),
+    });
+    // exhaustive: every sqrt2^p * omega^k, |p| <= P, on a one-wire diagram with one spider
+    let pmax = t.pick(40i64, 200i64);
+    let total = ((2 * pmax + 1) * 8) as usize;
+    par_cases("exact-scalars-exhaustive", total, move |r, i| {
+        let p = (i as i64) / 8 - pmax;
+        let k = (i as i64) % 8;
+        let s = if i % 2 == 0 {
+            Scalar4::sqrt2_pow(p as i32) * Scalar4::from_phase(Rational64::new(k, 4))
+        } else {
+            scalar_of_r(&R::sqrt2_pow(p).mul(&R::omega_pow(k))).expect("small")
+        };
+        if exact_form(&r_of_scalar(&s)) != Some((p, k)) {
+            ctx().inconclusive("scalar-constructor-gave-unexpected-value", json!({"p": p, "k": k, "got": scalar_json(&s)}));
+            return;
+        }
+        let n = Neutral {
+            verts: vec![
+                NV { kind: VType::B, ph: (0, 1), x: 0.0, y: 0.0 },
+                NV { kind: VType::Z, ph: (1, 4), x: 1.0, y: 0.0 },
+                NV { kind: VType::X, ph: (0, 1), x: 2.0, y: 0.0 },
+                NV { kind: VType::B, ph: (0, 1), x: 3.0, y: 0.0 },
+            ],
+            edges: vec![(0, 1, EType::N), (1, 2, EType::H), (2, 3, EType::N)],
+            inputs: vec![0],
+            outputs: vec![3],
+            scalar: s,
+            scalar_src: "hand-exact".into(),
+            coord_mode: "unique-grid",
+        };
+        check_neutral("exact-scalars-exhaustive", i, r, &n);
+    });
+    c.extra("exact_scalars_exhaustive", json!({"p_range": [-pmax, pmax], "k_range": [0, 7], "cases": total, "completed": !c.out_of_time()}));
+    c.extra("exhaustive", json!(false));
 }
